@@ -61,6 +61,20 @@ func vScriptOfKind(kind int) []byte {
 		return vNondetBytes("any25", 25)
 	case 4: // arbitrary 23 bytes: may or may not be a pay-to-script-hash
 		return vNondetBytes("any23", 23)
+	case 6: // a special template followed by extra bytes is NOT the special form
+		s := []byte{0x76, 0xa9, 0x14}
+		s = append(s, vNondetBytes("h160", 20)...)
+		s = append(s, 0x88, 0xac)
+		return append(s, vNondetBytes("extra", 1+vNondetLen("nextra", 1))...)
+	case 7:
+		s := []byte{0xa9, 0x14}
+		s = append(s, vNondetBytes("h160", 20)...)
+		s = append(s, 0x87)
+		return append(s, vNondetBytes("extra", 1+vNondetLen("nextra", 1))...)
+	case 8: // compressed-pubkey template followed by an extra byte
+		s := []byte{0x21, 0x02}
+		s = append(s, vNondetBytes("x", 32)...)
+		return append(s, 0xac, vNondetU8("extra"))
 	}
 	// generic scripts around the lengths where the size prefix changes its own length
 	lens := []int{0, 1, 2, 20, 120, 121, 122, 123, 127, 128}
@@ -76,7 +90,7 @@ func vScriptOfKind(kind int) []byte {
 // back, and decompressScript(putCompressedScript(s)) == s, for the special templates and generic scripts
 //verif:opts reach=end
 func VH_script_compression_roundtrip() {
-	s := vScriptOfKind(vNondetLen("kind", 5))
+	s := vScriptOfKind(vNondetLen("kind", 8))
 	n := compressedScriptSize(s)
 	buf := make([]byte, n+2)
 	w := putCompressedScript(buf, s)
